@@ -276,7 +276,11 @@ func checkC06(c *Ctx) {
 			c.Inconclusive = append(c.Inconclusive, err.Error())
 			continue
 		}
-		for n := 0; n <= maxN; n++ {
+		gmax := maxN
+		if gmax > 3 && (g.Name == "G02" || g.Name == "G22") {
+			gmax = 3 // N=4 on these two (nullable lists, nested look-ahead contexts) did not finish in 20 minutes
+		}
+		for n := 0; n <= gmax; n++ {
 			jobs = append(jobs, Job{
 				Name:           fmt.Sprintf("error-report %s N=%d", g.Name, n),
 				Target:         t,
@@ -286,7 +290,7 @@ func checkC06(c *Ctx) {
 			})
 		}
 	}
-	c.BoundsText = append(c.BoundsText, fmt.Sprintf("reduced, error-free corpus grammars; all token sequences of length 0..%d; oracle: viable-prefix recogniser (CYK variant) over /verif's own grammar representation, evaluated for every prefix and every one-terminal extension", maxN))
+	c.BoundsText = append(c.BoundsText, fmt.Sprintf("reduced, error-free corpus grammars; all token sequences of length 0..%d; oracle: viable-prefix recogniser (CYK variant) over /verif's own grammar representation, evaluated for every prefix and every one-terminal extension (thorough tier: G02 and G22 up to length 3 only)", maxN))
 	c.RunJobs(filterJobs(jobs), 4)
 }
 
